@@ -25,8 +25,16 @@ class CommandOption(AbstractOption):
         for alias in aliases:
             if isinstance(alias, str) and alias.startswith("--"):
                 alias = self._remove_double_dash_prefix(alias)
-            else:
+
+                if len(alias) < 2:
+                    raise ValueError(
+                        "A long option alias must contain more than one character."
+                    )
+            elif isinstance(alias, str) and alias.startswith("-"):
                 alias = self._remove_dash_prefix(alias)
+
+                if len(alias) != 1:
+                    self._validate_short_alias(alias)
 
             if len(alias) == 1:
                 self._validate_short_alias(alias)
